@@ -312,6 +312,13 @@ type ipv6HeaderTLVOption struct {
 }
 
 func (h *ipv6HeaderTLVOption) serializeTo(data []byte, fixLengths bool, dryrun bool) int {
+	if h.OptionType == 0 {
+		// Pad1 is a single octet without length or data
+		if !dryrun {
+			data[0] = 0
+		}
+		return 1
+	}
 	if fixLengths {
 		h.OptionLength = uint8(len(h.OptionData))
 	}
